@@ -61,6 +61,16 @@ func record(run *kit.Run, sc bk.Scenario, res *bk.Result) {
 	}
 }
 
+func execute(sc bk.Scenario) bk.Result {
+	switch sc.Kind {
+	case "close-race-loop":
+		return bk.RunCloseRace(sc, false)
+	case "close-race-owner":
+		return bk.RunCloseRace(sc, true)
+	}
+	return bk.Run(sc, true)
+}
+
 func main() {
 	run := kit.Start()
 	run.Header = "From FunV Require Import Corr.C08_corr."
@@ -75,7 +85,7 @@ func main() {
 			fmt.Fprintln(os.Stderr, "replay:", err)
 			os.Exit(2)
 		}
-		res := bk.Run(sc, true)
+		res := execute(sc)
 		record(run, sc, &res)
 		b, _ := json.Marshal(map[string]any{"observed": res.Obs, "control": res.Ctl, "fails": res.Fails, "stuck": res.Stuck})
 		fmt.Println(string(b))
@@ -91,6 +101,26 @@ func main() {
 	for _, be := range []string{"queue", "deque"} {
 		sc := bk.GenInflight(next(), be, 3)
 		res := bk.Run(sc, true)
+		record(run, sc, &res)
+	}
+
+	// corpus: redundant / foreign Unsubscribe calls must not disturb a subscriber
+	// that stays subscribed throughout
+	for _, be := range []string{"chan", "queue", "deque"} {
+		sc := bk.GenRedundantUnsub(next(), be, 25)
+		res := bk.Run(sc, true)
+		record(run, sc, &res)
+	}
+	// the queue/deque behind the broker is closed right after the last message,
+	// while the workers are parked: only published values may ever arrive
+	for i, n := 0, run.Pick(48, 600); i < n && unexpected < 3; i++ {
+		be := []string{"deque", "lifo", "queue", "dequeblock"}[i%4]
+		kind := "close-race-loop"
+		if i%8 >= 4 {
+			kind = "close-race-owner"
+		}
+		sc := bk.Scenario{ID: next(), Kind: kind, Cfg: bk.Cfg{Backend: be, W: []int{1, 4, 2}[i%3], Cap: 3}}
+		res := execute(sc)
 		record(run, sc, &res)
 	}
 
